@@ -239,6 +239,10 @@ func appendLimitQuery(b *goqu.SelectDataset, limit *int64, maxLimit uint) *goqu.
 	if limit != nil {
 		l = min(l, uint(*limit))
 	}
+	if l == 0 {
+		// goqu drops a zero limit, which would return every row
+		return b.Where(goqu.L("1 = 0"))
+	}
 	if l != NoLimit {
 		b = b.Limit(l)
 	}
